@@ -89,7 +89,7 @@ Theorem C15_guards : forall f pid d ov p adv,
 Proof. exact (headline_guards write_steps C15_gen_writer_ok). Qed.
 Print Assumptions C15_guards.
 
-(* 2. every crash point k (format call i, write call j, child-card formatting, open, close,
+(* 2. every crash point k (format call i — raising an ordinary exception or a Warning subclass —, write call j, child-card formatting, open, close,
       replace, remove, the warning hand-over), every problem (also with objects that raise by
       themselves), every prior state: when write_to_file raises, the destination is exactly as
       before (only a failing warning hand-over, which comes after the move, leaves the complete
@@ -165,6 +165,9 @@ Example C15_atomic_nonvacuous :
     = (Err OSError, File "OLD", Absent, File "keep") /\
   obs (write_with_failure_at (FFormat 1) write_steps "out.i" (tmp "42" "out.i") true ex_problem ex_fs)
     = (Err IllegalState, File "OLD", Absent, File "keep") /\
+  (* a warning turned into an error (python -W error) while the second cell is formatted *)
+  obs (write_with_failure_at (FFormatW 2) write_steps "out.i" (tmp "42" "out.i") true ex_problem ex_fs)
+    = (Err WarningClass, File "OLD", Absent, File "keep") /\
   ex_fs (tmp "42" "out.i") = Absent.
 Proof. vm_compute. repeat split; reflexivity. Qed.
 Print Assumptions C15_atomic_nonvacuous.
